@@ -1070,10 +1070,13 @@ def signature(source: str) -> Tuple[list[Party], list[Input], list[Output]]:
         raise ValueError("first statement must be: from nada_dsl import *")
 
     # Adjust the import statement and add a statement that resets the static
-    # class attributes being used for aggregation.
+    # class attributes being used for aggregation. The reset runs right after
+    # the import, before any other statement of the program, so that parties
+    # and inputs created at module level are part of the signature.
     root.body[0].module = "nada_dsl.audit"
     # root.body.append(ast.Expr(ast.Call(ast.Name('nada_main', ast.Load()), [], [])))
-    root.body.append(
+    root.body.insert(
+        1,
         ast.Expr(
             ast.Call(
                 ast.Attribute(
@@ -1082,7 +1085,7 @@ def signature(source: str) -> Tuple[list[Party], list[Input], list[Output]]:
                 [],
                 [],
             )
-        )
+        ),
     )
     ast.fix_missing_locations(root)
 
